@@ -36,13 +36,14 @@ type Solver struct {
 	buf      strings.Builder
 	transcript io.Writer
 	OneShots    int
+	skipInc     int
 	OneShotWall time.Duration
 }
 
 // incTimeout is the per-query budget of the incremental process; harder queries go one-shot.
 func (s *Solver) incTimeout() int {
-	if s.timeout > 2500 {
-		return 2500
+	if s.timeout > 1500 {
+		return 1500
 	}
 	return s.timeout
 }
@@ -216,6 +217,20 @@ func (s *Solver) Check(assertions []*Term, wantVals []*Term) (string, map[int]ui
 	t0 := time.Now()
 	defer func() { s.Wall += time.Since(t0) }()
 	s.Queries++
+	if s.skipInc > 0 && s.kind != "cvc5" {
+		// the incremental core recently gave up on this kind of query: go straight to one-shot
+		s.skipInc--
+		r, v := s.oneShot(assertions, wantVals, s.timeout)
+		switch r {
+		case "sat":
+			s.Sat++
+		case "unsat":
+			s.Unsat++
+		default:
+			s.Unknown++
+		}
+		return r, v
+	}
 	if s.ndefs > 400000 {
 		s.restart()
 	}
@@ -300,6 +315,7 @@ func (s *Solver) Check(assertions []*Term, wantVals []*Term) (string, map[int]ui
 	s.send("(pop 1)\n")
 	if res != "sat" && res != "unsat" && s.kind != "cvc5" {
 		// incremental core gave up: decide in a fresh process with the full tactic pipeline
+		s.skipInc = 40
 		r2, v2 := s.oneShot(assertions, wantVals, s.timeout)
 		if r2 != "unknown" {
 			res, vals = r2, v2
